@@ -7,11 +7,13 @@ import (
 	"math"
 	"net"
 	"reflect"
+	"runtime"
 	"strings"
 	"sync"
 	"time"
 
 	"github.com/EdgeCast/vflow/ipfix"
+	netflow5 "github.com/EdgeCast/vflow/netflow/v5"
 	netflow9 "github.com/EdgeCast/vflow/netflow/v9"
 )
 
@@ -215,6 +217,64 @@ func cmdNf9H(args []tok) string {
 				}
 			}
 			return fmt.Sprintf("MSG nf=%d H:%s N:%d S:%s J:%s", nf, headerFields(m.Header), len(m.DataSets), strings.Join(sets, ";"), j)
+		})
+		outs = append(outs, res)
+		if res == "PANIC" || res == "HANG" {
+			break
+		}
+	}
+	return strings.Join(outs, " ## ")
+}
+
+// measure <ipfix|nf9|nf5> <addr> <payload> ... : work and memory of processing each datagram of the
+// history (decode + JSON encode, as the worker does): R:<records> A:<bytes allocated> T:<ms> L:<octets>
+func init() { commands["measure"] = cmdMeasure }
+
+func cmdMeasure(args []tok) string {
+	if len(args) < 1 {
+		return "BADARGS"
+	}
+	installTestElements()
+	proto := args[0].s
+	mc := ipfix.GetCache("")
+	mc9 := netflow9.GetCache("")
+	var outs []string
+	for i := 1; i+1 < len(args); i += 2 {
+		addr, p := exactAddr(args[i].b), guarded(args[i+1].b)
+		res := watchdog(3*time.Second, func() string {
+			var ms0, ms1 runtime.MemStats
+			runtime.ReadMemStats(&ms0)
+			t0 := time.Now()
+			recs := 0
+			switch proto {
+			case "ipfix":
+				m, _ := ipfix.NewDecoder(addr, p).Decode(mc)
+				if m != nil {
+					recs = len(m.DataSets)
+					if recs > 0 {
+						m.JSONMarshal(new(bytes.Buffer))
+					}
+				}
+			case "nf9":
+				m, _ := netflow9.NewDecoder(addr, p).Decode(mc9)
+				if m != nil {
+					recs = len(m.DataSets)
+					if m.DataSets != nil {
+						m.JSONMarshal(new(bytes.Buffer))
+					}
+				}
+			case "nf5":
+				m, _ := netflow5.NewDecoder(addr, p).Decode()
+				if m != nil {
+					recs = len(m.Flows)
+					if m.Flows != nil {
+						m.JSONMarshal(new(bytes.Buffer))
+					}
+				}
+			}
+			el := time.Since(t0)
+			runtime.ReadMemStats(&ms1)
+			return fmt.Sprintf("R:%d A:%d T:%d L:%d", recs, ms1.TotalAlloc-ms0.TotalAlloc, el.Milliseconds(), len(p))
 		})
 		outs = append(outs, res)
 		if res == "PANIC" || res == "HANG" {
